@@ -1,0 +1,46 @@
+//go:build verif
+
+package httputil
+
+// Contracts for gocv (see /verif/DESIGN.md). Comment-only file.
+
+//@ package httputil
+//@ import io "io"
+//@ import http "net/http"
+//@
+//@ iface Client.Do
+//@   ensures result1 == nil ==> result0 != nil && alive(result0) && result0.Body != nil && result0.Request != nil && result0.Request.URL != nil
+//@   modifies alloc, ghost.closedRC
+//@
+//@ pure rscWf(rsc *readSeekCloser) bool = rsc != nil && rsc.rc != nil && rsc.client != nil && rsc.req != nil && rsc.size >= 0 && rsc.offset >= 0
+//@
+//@ ghost local seekSends int
+//@ ghost local seekResp *http.Response
+//@ func (*readSeekCloser).Seek
+//@   requires [wf] rscWf(rsc)
+//@   entry set seekSends = 0
+//@   let inRange = (whence == 0 ==> true) && (whence == 1 ==> offset0 + old(rsc.offset) <= 9223372036854775807) && (whence == 2 ==> offset0 + old(rsc.size) <= 9223372036854775807)
+//@   let target = whence == 0 ? offset0 : (whence == 1 ? offset0 + old(rsc.offset) : offset0 + old(rsc.size))
+//@   call Do requires [C13:request-only-inside-content] offset >= 0 && offset < rsc.size && offset != rsc.offset
+//@   call Do set seekSends = seekSends + 1
+//@   call Do set seekResp = result0
+//@   call fmt.Sprintf requires [C13:range-header-bounds] len(args.a) == 2 && args.a[0] == box(offset) && args.a[1] == box(rsc.size - 1)
+//@   ensures [C13:result-is-requested-position] result1 == nil && inRange ==> result0 == target && result0 >= 0 && rsc.offset == result0
+//@   ensures [C13:invalid-whence] !(whence == 0 || whence == 1 || whence == 2) ==> result1 != nil
+//@   ensures [C13:negative-rejected] inRange && (whence == 0 || whence == 1 || whence == 2) && target < 0 ==> result1 != nil
+//@   ensures [C13:at-most-one-request] seekSends <= 1
+//@   ensures [C13:partial-content-only] result1 == nil && seekSends == 1 ==> seekResp.StatusCode == 206 && rsc.rc == seekResp.Body
+//@   ensures [C13:error-keeps-position] result1 != nil ==> rsc.offset == old(rsc.offset) && rsc.rc == old(rsc.rc)
+//@   ensures [C13:wf] rscWf(rsc)
+//@   ensures [C13:closed-rejected] old(rsc.closed) ==> result1 != nil && seekSends == 0
+//@
+//@ func (*readSeekCloser).Read
+//@   requires [wf] rscWf(rsc)
+//@   ensures [C13:offset-advances] old(rsc.offset) + n <= 9223372036854775807 ==> rsc.offset == old(rsc.offset) + n
+//@   ensures [C13:closed-rejected] old(rsc.closed) ==> n == 0 && err != nil
+//@
+//@ func (*readSeekCloser).Close
+//@   requires [wf] rscWf(rsc)
+//@   ensures [C13:closed] rsc.closed
+//@   ensures [C13:idempotent] old(rsc.closed) ==> result == nil && (forall o io.Closer :: closedRC(o) == old(closedRC(o)))
+//@   ensures [C13:closes-body] !old(rsc.closed) ==> closedRC(old(rsc.rc))
